@@ -19,12 +19,14 @@ TOP_POOL: T.List[T.Dict[str, T.Any]] = [
     {'name': 'a', 'type': 'array', 'choices': ['x', 'y', 'z'], 'value': ['x']},
     {'name': 'f', 'type': 'feature', 'value': 'auto'},
     {'name': 'yy', 'type': 'string', 'value': 'topyy'},
+    {'name': 'yc', 'type': 'combo', 'choices': ['k1', 'k2', 'k3'], 'value': 'k1'},
 ]
 SUB_POOL: T.List[T.Dict[str, T.Any]] = [
     {'name': 'ss', 'type': 'string', 'value': 'subdef'},
     {'name': 'sc', 'type': 'combo', 'choices': ['p', 'q', 'r'], 'value': 'p'},
     {'name': 'sb', 'type': 'boolean', 'value': False},
     {'name': 'yy', 'type': 'string', 'value': 'subyy', 'yield': True},
+    {'name': 'yc', 'type': 'combo', 'choices': ['k1', 'k2', 'k3'], 'value': 'k2', 'yield': True},
 ]
 EXTRA_POOL: T.List[T.Dict[str, T.Any]] = [   # options that edits may add later
     {'name': 'n1', 'type': 'string', 'value': 'new1'},
@@ -64,8 +66,9 @@ def gen_spec(rng: random.Random) -> T.Dict[str, T.Any]:
     top = [copy.deepcopy(o) for o in TOP_POOL if rng.random() < 0.75 or o['name'] in ('s', 'yy')]
     have_sub = rng.random() < 0.8
     sub = [copy.deepcopy(o) for o in SUB_POOL if rng.random() < 0.8 or o['name'] == 'ss'] if have_sub else None
-    if sub is not None and not any(o['name'] == 'yy' for o in top):
-        sub = [o for o in sub if o['name'] != 'yy']
+    for yn in ('yy', 'yc'):
+        if sub is not None and not any(o['name'] == yn for o in top):
+            sub = [o for o in sub if o['name'] != yn]
     spec: T.Dict[str, T.Any] = {'top': top, 'sub': sub, 'backend': 'none',
                                 'top_defaults': rng.choice([[], [], ['warning_level=2'], ['buildtype=release'], ['default_library=static']]),
                                 'sub_defaults': rng.choice([[], [], ['warning_level=0'], ['default_library=both']])}
@@ -199,7 +202,7 @@ def draw_edit(rng: random.Random, spec: T.Dict[str, T.Any]) -> T.Optional[T.Dict
             return None
         return {'where': where, 'kind': 'add', 'opt': copy.deepcopy(rng.choice(cands))}
     if kind == 'remove':
-        cands = [o for o in opts if o['name'] not in ('yy',)]
+        cands = [o for o in opts if o['name'] not in ('yy', 'yc')]
         if len(cands) <= 1:
             return None
         return {'where': where, 'kind': 'remove', 'name': rng.choice(cands)['name']}
